@@ -650,8 +650,8 @@ static void run_stress(int k, const std::string & hdr, const std::string & body)
 // The main thread runs <setup> on its own stack; every worker starts with a copy of that stack (made before it
 // starts) and runs its program under the scheduler, whose decision points are the atomic increments / decrements
 // (system/AtomicCounter.h hooks) and the pool's Mutex::Lock (system/Mutex.h hook).  The dotted list is the explicit
-// schedule (worker ids; entries naming a finished worker are skipped; beyond its end: non-preemptive).  Afterwards the
-// main thread runs <teardown>.  Printed: for every decision the worker resumed and the atomic step it then
+// schedule (worker ids; entries naming a finished worker are skipped; beyond its end: non-preemptive).  The main thread
+// runs <teardown> (dropping its own references) right after creating the workers, before any of them runs.  Printed: for every decision the worker resumed and the atomic step it then
 // executed (I<obj> / D<obj> / L = pool critical section / - = none), then the complete final dump.
 struct SchedEv {int tid; int kind; int id;};
 
@@ -689,6 +689,11 @@ static void run_scheduled(int k, const std::string & hdr, const std::string & bo
       for (size_t t=1; t<=T; t++)
          for (int i=0; i<S; i++) {ctx[t].stk[i] = ctx[0].stk[i]; ideal.stk[ctx[t].base+i] = ideal.stk[i];}
       ideal.collect();
+      // the main thread drops (some of) its own references before the workers run: shared objects now live and die among the workers
+      {
+         std::vector<std::string> ops = split(progs[1], ';');
+         for (size_t n=0; n<ops.size(); n++) if (!ops[n].empty()) (void) do_op(ctx[0], ops[n], orc, k, 2000+n);
+      }
 
       if (T > 0)
       {
@@ -739,11 +744,6 @@ static void run_scheduled(int k, const std::string & hdr, const std::string & bo
             }
             o << w << ":" << tag << " ";
          }
-      }
-      // teardown, single-threaded
-      {
-         std::vector<std::string> ops = split(progs[1], ';');
-         for (size_t n=0; n<ops.size(); n++) if (!ops[n].empty()) (void) do_op(ctx[0], ops[n], orc, k, 2000+n);
       }
       g_ev = NULL;
       ideal.collect();
